@@ -34,6 +34,70 @@ Qed.
 Lemma data_eqb_refl a : data_eqb a a = true.
 Proof. now apply data_eqb_spec. Qed.
 
+(** maps and the label / annotation merge *)
+Lemma dlookup_dset_same k v d : dlookup k (dset k v d) = Some v.
+Proof.
+  induction d as [|[k' v'] r IH]; cbn [dlookup dset fst snd]; [now rewrite N.eqb_refl|].
+  destruct (k <? k') eqn:E1; cbn [dlookup dset fst snd]; [now rewrite N.eqb_refl|].
+  destruct (k =? k') eqn:E2; cbn [dlookup dset fst snd]; [now rewrite N.eqb_refl|]. rewrite N.eqb_sym, E2. exact IH.
+Qed.
+Lemma dlookup_dset_other k k' v d : k' <> k -> dlookup k' (dset k v d) = dlookup k' d.
+Proof.
+  intros Hne. apply N.eqb_neq in Hne. induction d as [|[k2 v2] r IH]; cbn [dlookup dset fst snd]; [now rewrite N.eqb_sym, Hne|].
+  destruct (k <? k2) eqn:E1; cbn [dlookup dset fst snd]; [now rewrite N.eqb_sym, Hne|].
+  destruct (k =? k2) eqn:E2; cbn [dlookup dset fst snd].
+  - apply N.eqb_eq in E2. subst k2. now rewrite N.eqb_sym, Hne.
+  - destruct (k2 =? k'); auto.
+Qed.
+Lemma in_dset kv k v d : In kv (dset k v d) -> kv = (k, v) \/ In kv d.
+Proof.
+  induction d as [|[k2 v2] r IH]; cbn [dset]; [intros [H|[]]; auto|].
+  destruct (k <? k2); [intros [H|H]; [auto|now right]|]. destruct (k =? k2); [intros [H|H]; [auto|right; now right]|].
+  intros [H|H]; [right; now left|]. destruct (IH H) as [H1|H1]; [auto|right; now right].
+Qed.
+Lemma in_has_key kv d : In kv d -> has_key (fst kv) d = true.
+Proof.
+  destruct kv as [k v]. cbn [fst]. unfold has_key. induction d as [|[k2 v2] r IH]; [contradiction|].
+  intros [E|H]; cbn [dlookup]; [injection E as -> ->; now rewrite N.eqb_refl|].
+  destruct (k2 =? k); [reflexivity|]. now apply IH.
+Qed.
+
+Lemma merge_meta_body ex body k : has_key k body = true -> dlookup k (merge_meta ex body) = dlookup k body.
+Proof.
+  intros Hk. unfold merge_meta.
+  assert (H : forall acc, dlookup k (fold_left (fun acc kv => if is_meta (fst kv) && negb (has_key (fst kv) body)
+                                                            then dset (fst kv) (snd kv) acc else acc) ex acc) = dlookup k acc).
+  { induction ex as [|[k' v'] r IH]; intros acc; cbn [fold_left fst snd]; [reflexivity|].
+    destruct (is_meta k' && negb (has_key k' body)) eqn:E; [|apply IH].
+    rewrite IH. apply dlookup_dset_other. intros ->. apply andb_true_iff in E. destruct E as [_ E]. rewrite Hk in E. discriminate. }
+  apply H.
+Qed.
+Lemma merge_meta_keys ex body kv : In kv (merge_meta ex body) -> is_meta (fst kv) || has_key (fst kv) body = true.
+Proof.
+  unfold merge_meta.
+  assert (H : forall acc, (forall x, In x acc -> is_meta (fst x) || has_key (fst x) body = true) ->
+            In kv (fold_left (fun acc kv => if is_meta (fst kv) && negb (has_key (fst kv) body) then dset (fst kv) (snd kv) acc else acc) ex acc) ->
+            is_meta (fst kv) || has_key (fst kv) body = true).
+  { induction ex as [|[k' v'] r IH]; intros acc Hacc; cbn [fold_left fst snd]; [apply Hacc|].
+    destruct (is_meta k' && negb (has_key k' body)) eqn:E; [|now apply IH].
+    apply IH. intros x Hx. destruct (in_dset _ _ _ _ Hx) as [->|Hx']; [|now apply Hacc].
+    cbn. apply andb_true_iff in E. destruct E as [-> _]. reflexivity. }
+  apply H. intros x Hx. rewrite (in_has_key _ _ Hx). apply orb_true_r.
+Qed.
+
+Lemma follows_refl body : follows body body = true.
+Proof.
+  unfold follows. apply andb_true_iff. split; apply forallb_forall; intros kv Hin.
+  - destruct (dlookup (fst kv) body); [apply N.eqb_refl|reflexivity].
+  - rewrite (in_has_key _ _ Hin). apply orb_true_r.
+Qed.
+Lemma follows_merge ex body : follows (merge_meta ex body) body = true.
+Proof.
+  unfold follows. apply andb_true_iff. split; apply forallb_forall; intros kv Hin.
+  - rewrite (merge_meta_body _ _ _ (in_has_key _ _ Hin)). destruct (dlookup (fst kv) body); [apply N.eqb_refl|reflexivity].
+  - now apply (merge_meta_keys ex).
+Qed.
+
 Lemma lookup_upsert_same k o st : lookup k (upsert k o st) = Some o.
 Proof. induction st as [|[k' o'] st IH]; cbn; [now rewrite key_eqb_refl|]. destruct (key_eqb k k') eqn:E; cbn; rewrite ?key_eqb_refl, ?E; auto. Qed.
 Lemma lookup_upsert_other k k' o st : k' <> k -> lookup k' (upsert k o st) = lookup k' st.
@@ -394,7 +458,7 @@ Section Proofs.
       cache_get (w_store w1) k = Some ex -> copy_conds t ex = Some cs -> update_res k = WOk ->
       rec_out w t w1 e1
         (with_store (with_watch w1 (add_watch (k_kind k) me (w_watch w1))) (upsert (nkey k) (updated_target ex body) (w_store w1)))
-        (e1 ++ [EWatch (k_kind k); ECacheHit (nkey k) (o_data ex); EUpdate k body WOk])
+        (e1 ++ [EWatch (k_kind k); ECacheHit (nkey k) (o_data ex); EUpdate k (merge_meta (o_data ex) body) WOk])
         (set_invalid (set_ctrlof (set_conds t cs) (Some k)) 0) (rq_of retry) 0
   | RO_update_fail cfg retry k body ex cs r :
       scan (pfbad (t_ns t)) (w_store w) (t_ns t) (t_sources t) [] false = ScOk cfg retry ->
@@ -402,7 +466,7 @@ Section Proofs.
       template_object t cfg (w_env w) = TObj k body ->
       cache_get (w_store w1) k = Some ex -> copy_conds t ex = Some cs -> update_res k = r -> r <> WOk ->
       rec_out w t w1 e1 (with_watch w1 (add_watch (k_kind k) me (w_watch w1)))
-        (e1 ++ [EWatch (k_kind k); ECacheHit (nkey k) (o_data ex); EUpdate k body r]) t (rq_of retry) 3.
+        (e1 ++ [EWatch (k_kind k); ECacheHit (nkey k) (o_data ex); EUpdate k (merge_meta (o_data ex) body) r]) t (rq_of retry) 3.
 
   (** What the source phase leaves behind. *)
   Record src_phase (w : world) (tns : N) (srcs : list source) (w1 : world) (e1 : list ev) : Prop := {
@@ -572,9 +636,9 @@ Section Proofs.
                w_tmpl w' = Some t0 /\ w_store w' = st1)
            \/ (template_object t cfg (w_env w) = TSrcErr /\ target_writes (p_evs r) = [] /\ p_err r = 0 /\
                w_tmpl w' = Some (set_invalid t0 1) /\ w_store w' = st1)
-           \/ (exists k body o, template_object t cfg (w_env w) = TObj k body /\ target_writes (p_evs r) = [(k, body)] /\ p_err r = 0 /\
+           \/ (exists k body o, template_object t cfg (w_env w) = TObj k body /\ target_writes (p_evs r) = [(k, o_data o)] /\ p_err r = 0 /\
                  (exists t', w_tmpl w' = Some t' /\ t_invalid t' = 0) /\
-                 w_store w' = upsert k o st1 /\ o_data o = body /\ o_label o = true /\ watched (k_kind k) me (w_watch w') = true /\
+                 w_store w' = upsert k o st1 /\ follows (o_data o) body = true /\ o_label o = true /\ watched (k_kind k) me (w_watch w') = true /\
                  admitted k /\ o_conds o = [] /\ o_sobs o = None)
            \/ (exists k body, template_object t cfg (w_env w) = TObj k body /\ target_writes (p_evs r) = [] /\
                  (p_err r = 2 \/ p_err r = 3 \/ p_err r = 4) /\ w_tmpl w' = Some t0 /\ w_store w' = st1 /\
@@ -628,7 +692,7 @@ Section Proofs.
       + right. exists cfg, retry. split; [assumption|]. split; [reflexivity|]. split.
         * eapply Forall_impl; [|exact Htr]. intros s Hs. apply tracked_with_tmpl. now apply tracked_after_write.
         * right; right; right; left. exists k, body, (new_target body).
-          destruct (Hwr [EWatch (k_kind k); ECreate k body WOk]) as [-> _]. repeat split; auto.
+          destruct (Hwr [EWatch (k_kind k); ECreate k body WOk]) as [-> _]. repeat split; auto; try (cbn; apply follows_refl).
           -- eexists. split; [reflexivity|]. reflexivity.
           -- apply watched_add_same.
           -- eapply create_ok_admitted; eauto.
@@ -660,12 +724,12 @@ Section Proofs.
       repeat split; auto.
       + intros kd o Hw. apply watched_add_mono. auto.
       + intros kd o Hne. rewrite watched_add, (Hso kd o Hne). apply N.eqb_neq in Hne. rewrite (N.eqb_sym me o), Hne, andb_false_r, orb_false_r. reflexivity.
-      + intros k0 Hin. apply (Hpatch [EWatch (k_kind k); ECacheHit k (o_data ex); EUpdate k body WOk] eq_refl k0). now left.
+      + intros k0 Hin. apply (Hpatch [EWatch (k_kind k); ECacheHit k (o_data ex); EUpdate k (merge_meta (o_data ex) body) WOk] eq_refl k0). now left.
       + eexists. split; [reflexivity|]. unfold same_spec; cbn; auto 10.
       + right. exists cfg, retry. split; [assumption|]. split; [reflexivity|]. split.
         * eapply Forall_impl; [|exact Htr]. intros s Hs. apply tracked_with_tmpl. now apply tracked_after_write.
         * right; right; right; left. exists k, body, (updated_target ex body).
-          destruct (Hwr [EWatch (k_kind k); ECacheHit k (o_data ex); EUpdate k body WOk]) as [-> _]. repeat split; auto.
+          destruct (Hwr [EWatch (k_kind k); ECacheHit k (o_data ex); EUpdate k (merge_meta (o_data ex) body) WOk]) as [-> _]. repeat split; auto; try (cbn; apply follows_merge).
           -- eexists. split; [reflexivity|]. reflexivity.
           -- apply watched_add_same.
           -- now apply update_ok_admitted.
@@ -673,12 +737,12 @@ Section Proofs.
       repeat split; auto.
       + intros kd o Hw. apply watched_add_mono. auto.
       + intros kd o Hne'. rewrite watched_add, (Hso kd o Hne'). apply N.eqb_neq in Hne'. rewrite (N.eqb_sym me o), Hne', andb_false_r, orb_false_r. reflexivity.
-      + intros k0 Hin. apply (Hpatch [EWatch (k_kind k); ECacheHit (nkey k) (o_data ex); EUpdate k body wr] eq_refl k0). now right.
+      + intros k0 Hin. apply (Hpatch [EWatch (k_kind k); ECacheHit (nkey k) (o_data ex); EUpdate k (merge_meta (o_data ex) body) wr] eq_refl k0). now right.
       + eauto.
       + right. exists cfg, retry. split; [assumption|]. split; [reflexivity|]. split.
         * eapply Forall_impl; [|exact Htr]. intros s Hs. now apply tracked_with_watch.
         * right; right; right; right. exists k, body.
-          destruct (Hwr [EWatch (k_kind k); ECacheHit (nkey k) (o_data ex); EUpdate k body wr]) as [_ ->]. repeat split; auto.
+          destruct (Hwr [EWatch (k_kind k); ECacheHit (nkey k) (o_data ex); EUpdate k (merge_meta (o_data ex) body) wr]) as [_ ->]. repeat split; auto.
           -- destruct wr; try reflexivity. congruence.
           -- right. exists ex. split; [assumption|left; congruence].
   Qed.
@@ -798,26 +862,26 @@ Section Proofs.
         it read from the sources in this very pass (and the environment), at the key the template
         denotes; and it writes at most one object. *)
     Theorem output_is_render k d : In (k, d) (target_writes (p_evs r)) ->
-      exists cfg retry k0 orefs,
-        sc = ScOk cfg retry /\ render (t_code t) cfg (w_env w) = RObj k0 d orefs /\
+      exists cfg retry k0 body orefs,
+        sc = ScOk cfg retry /\ render (t_code t) cfg (w_env w) = RObj k0 body orefs /\ follows d body = true /\
         pf_violation tns k0 orefs = false /\ k = eff_key tns k0 /\ target_writes (p_evs r) = [(k, d)].
     Proof.
       intros Hin. table. cases_of Hcase; rewrite Hwr in Hin; try contradiction.
       destruct Hin as [E|[]]. injection E as <- <-.
-      destruct (tobj_inv _ _ _ _ _ Hto) as (k0 & orefs & Hr & Hpf & Hk). exists cfg1, retry1, k0, orefs. auto.
+      destruct (tobj_inv _ _ _ _ _ Hto) as (k0 & orefs & Hr & Hpf & Hk). exists cfg1, retry1, k0, bb, orefs. auto 10.
     Qed.
 
     (** ... and conversely: if the sources are all readable and the rendered object is admissible, the pass
         writes exactly that object or ends in an error (which controller-runtime retries). *)
     Theorem render_is_output cfg retry k0 d orefs :
       sc = ScOk cfg retry -> render (t_code t) cfg (w_env w) = RObj k0 d orefs -> pf_violation tns k0 orefs = false ->
-      p_err r <> 0 \/ target_writes (p_evs r) = [(eff_key tns k0, d)].
+      p_err r <> 0 \/ exists d', target_writes (p_evs r) = [(eff_key tns k0, d')] /\ follows d' d = true.
     Proof.
       intros Hs Hr Hpf. table.
       assert (Hto' : template_object t cfg (w_env w) = TObj (eff_key tns k0) d).
       { unfold Template.template_object. rewrite Hr. fold tns. rewrite Hpf. reflexivity. }
       cases_of Hcase; try (rewrite Hs in Hsc; (destruct Hsc as [?|[?|?]]; discriminate) || (injection Hsc as <- <-; congruence)).
-      - rewrite Hs in Hsc. injection Hsc as <- <-. rewrite Hto' in Hto. injection Hto as <- <-. now right.
+      - rewrite Hs in Hsc. injection Hsc as <- <-. rewrite Hto' in Hto. injection Hto as <- <-. right. eauto.
       - left. destruct Herr as [-> | [-> | ->]]; discriminate.
     Qed.
 
@@ -847,7 +911,7 @@ Section Proofs.
       p_requeue r = iv_opt /\
       (exists s, In s (t_sources t) /\ s_opt s = true /\ lookup (nkey (src_key tns s)) (w_store w) = None) /\
       forall k0 d orefs, render (t_code t) cfg (w_env w) = RObj k0 d orefs -> pf_violation tns k0 orefs = false ->
-        p_err r <> 0 \/ target_writes (p_evs r) = [(eff_key tns k0, d)].
+        p_err r <> 0 \/ exists d', target_writes (p_evs r) = [(eff_key tns k0, d')] /\ follows d' d = true.
     Proof.
       intros Hs. split; [|split].
       - table. cases_of Hcase; try (rewrite Hs in Hsc; (destruct Hsc as [?|[?|?]]; discriminate)); rewrite Hs in Hsc; injection Hsc as <- <-; exact Hrq.
@@ -976,7 +1040,7 @@ Section Proofs.
     Theorem success_equals_render : p_err r = 0 -> (exists t', w_tmpl w' = Some t' /\ t_invalid t' = 0) ->
       (forall k d, In (k, d) (target_writes (p_evs r)) -> forall s, In s (t_sources t) -> nkey (src_key tns s) <> k) ->
       exists t' k d o, w_tmpl w' = Some t' /\ expected t' (w_store w') (w_env w') = Some (k, d) /\
-        lookup k (w_store w') = Some o /\ o_data o = d /\ o_label o = true /\ target_writes (p_evs r) = [(k, d)].
+        lookup k (w_store w') = Some o /\ follows (o_data o) d = true /\ o_label o = true /\ target_writes (p_evs r) = [(k, o_data o)].
     Proof.
       intros He (tx & Htx & Hix) Hself. table.
       cases_of Hcase; try (rewrite Htm in Htx; injection Htx as <-; cbn in Hix; discriminate);
@@ -986,7 +1050,7 @@ Section Proofs.
       exists t', kk, bb, oo. split; [assumption|]. split; [|split; [|auto]].
       - unfold Template.expected. rewrite <- Ens, <- Esrc, <- Ecode, Henv, Hst. fold tns.
         rewrite <- (scan_ext (pfbad tns) (src_bad tns)) by (intros; now apply pfbad_is_bad).
-        rewrite scan_upsert_other by (intros s Hs; apply (Hself kk bb); [rewrite Hwr; now left|assumption]).
+        rewrite scan_upsert_other by (intros s Hs; apply (Hself kk (o_data oo)); [rewrite Hwr; now left|assumption]).
         rewrite <- (scan_store_le _ _ _ _ _ Hle). fold sc. rewrite Hsc, Hr.
         rewrite bad_pf, Hpf. now rewrite Ekk.
       - rewrite Hst. apply lookup_upsert_same.
@@ -1101,7 +1165,7 @@ Section Proofs.
     p_err r = 0 -> (exists t', w_tmpl w = Some t' /\ t_invalid t' = 0) ->
     (forall k d, In (k, d) (target_writes (p_evs r)) -> forall s, In s (t_sources t) -> nkey (src_key (t_ns t) s) <> k) ->
     exists t' k d o, w_tmpl w = Some t' /\ expected t' (w_store w) (w_env w) = Some (k, d) /\
-                     lookup k (w_store w) = Some o /\ o_data o = d /\ o_label o = true.
+                     lookup k (w_store w) = Some o /\ follows (o_data o) d = true /\ o_label o = true.
   Proof.
     intros wp w r Ht Hd He Hinv Hself. subst w. rewrite final_snoc_pass in *. fold wp in Hinv |- *.
     destruct (pass wp) as [w' r'] eqn:Ep. cbn [fst snd w_tmpl w_store w_env with_pending] in *. subst r.
@@ -1115,7 +1179,7 @@ Section Proofs.
     exists t k d o,
       w_tmpl w = Some t /\ t_del t = false /\
       expected t (w_store w) (w_env w) = Some (k, d) /\ (forall s, In s (t_sources t) -> nkey (src_key (t_ns t) s) <> k) /\
-      lookup k (w_store w) = Some o /\ o_data o = d /\ o_label o = true /\ admitted k /\
+      lookup k (w_store w) = Some o /\ follows (o_data o) d = true /\ o_label o = true /\ admitted k /\
       o_conds o = [].             (* no (possibly malformed) status conditions on the target: true after every write of the controller *)
 
   Lemma update_res_admitted k : admitted k -> update_res k = WOk.
@@ -1129,7 +1193,8 @@ Section Proofs.
   Theorem settled_pass w w' r : settled w -> pass w = (w', r) ->
     settled w' /\ p_err r = 0 /\ (exists t', w_tmpl w' = Some t' /\ t_invalid t' = 0) /\
     exists t k d, w_tmpl w = Some t /\ expected t (w_store w) (w_env w) = Some (k, d) /\
-                  expected t (w_store w') (w_env w') = Some (k, d) /\ target_writes (p_evs r) = [(k, d)].
+                  expected t (w_store w') (w_env w') = Some (k, d) /\
+                  exists d', target_writes (p_evs r) = [(k, d')] /\ follows d' d = true.
   Proof.
     intros (t & k & d & o & Ht & Hd & Hex & Hself & Hlk & Hod & Hol & Hadm & Hoc) Hp.
     destruct (pass_table _ _ _ _ Ht Hd Hp) as (st1 & Hle & Hmw & Hoth & Henv & Hpatch & (t' & Ht' & Hspec) & Hcase).
@@ -1169,7 +1234,7 @@ Section Proofs.
         split; [assumption|]. split; [congruence|]. split.
         { unfold Template.expected in *. rewrite <- Ens, <- Esrc, <- Ecode. exact Hex'. }
         split; [assumption|]. split; [rewrite Hst; apply lookup_upsert_same|]. auto.
-      + exists t, (eff_key tns k0), body. repeat split; auto.
+      + exists t, (eff_key tns k0), body. split; [assumption|]. split; [|split; [assumption|eauto]].
         unfold Template.expected. fold tns. rewrite <- (scan_ext (pfbad tns) (src_bad tns)) by assumption.
         rewrite Esc, Er, bad_pf, Hpf. reflexivity.
     - (* a failed write is impossible: the target is in the cache, carries no conditions, and an update of it is admitted *)
@@ -1196,10 +1261,10 @@ Section Proofs.
            [(_ & Hwr & _) | [(_ & Hwr & _) | [(_ & Hwr & _)
            | [(kk & bb & oo & _ & Hwr & _ & _ & Hst & _ & _ & _ & Hadm1 & Hoc1 & _)
              | (kk & bb & _ & Hwr & _)]]]])]; rewrite H6 in Hwr; try discriminate.
-      injection Hwr as <- <-. rewrite Hst, lookup_upsert_same in H3. injection H3 as <-. auto. }
+      injection Hwr as Ek _. subst kk. rewrite Hst, lookup_upsert_same in H3. injection H3 as <-. auto. }
     destruct Hfacts as [Hadm Hoc].
     exists t', k, d, o. rewrite <- Ens, <- Esrc. repeat split; auto; try congruence.
-    intros s Hs. apply (Hself k d); [rewrite H6; now left|assumption].
+    intros s Hs. apply (Hself k (o_data o)); [rewrite H6; now left|assumption].
   Qed.
 
   (** ... hence any number of further passes leaves the target equal to the render. *)
@@ -1248,7 +1313,7 @@ Section Proofs.
     exists t k d o,
       w_tmpl w = Some t /\ t_del t = false /\
       expected t (w_store w) (w_env w) = Some (k, d) /\ (forall s, In s (t_sources t) -> nkey (src_key (t_ns t) s) <> k) /\
-      lookup k (w_store w) = Some o /\ o_data o = d /\ o_label o = true /\ admitted k /\ o_conds o = [] /\
+      lookup k (w_store w) = Some o /\ follows (o_data o) d = true /\ o_label o = true /\ admitted k /\ o_conds o = [] /\
       Forall (tracked (t_ns t) w) (t_sources t) /\
       (forall s, In s (t_sources t) -> lookup (nkey (src_key (t_ns t) s)) (w_store w) <> None) /\
       watched (k_kind k) me (w_watch w) = true.
@@ -1400,7 +1465,7 @@ Section Proofs.
            [(_ & Hwr & _) | [(_ & Hwr & _) | [(_ & Hwr & _)
            | [(kk & bb & oo & _ & Hwr & _ & _ & _ & _ & _ & Hwk & _)
              | (kk & bb & _ & Hwr & _)]]]])]; rewrite X6 in Hwr; try discriminate.
-      injection Hwr as <- <-. exact Hwk.
+      injection Hwr as <- _. exact Hwk.
   Qed.
 
   (** quiescent_equals_render over histories with a quiet suffix: a successful pass in which every source
@@ -1415,7 +1480,7 @@ Section Proofs.
     let w := final w0 (ss ++ [@SPass code] ++ suffix) in
     w_pending w = false ->
     exists t' k d o, w_tmpl w = Some t' /\ expected t' (w_store w) (w_env w) = Some (k, d) /\
-                     lookup k (w_store w) = Some o /\ o_data o = d /\ o_lbl o = LTrue.
+                     lookup k (w_store w) = Some o /\ follows (o_data o) d = true /\ o_lbl o = LTrue.
   Proof.
     intros wp r w1 Ht Hd He Hinv Hself Hall Hq w Hp. subst w.
     rewrite final_app, final_app in *. fold wp in Hp |- *.
@@ -1512,9 +1577,10 @@ Section Proofs.
 
   (** what a pass with third parties and faults writes, if anything, is the render of exactly what it read *)
   Definition rendered_reads (t : tmpl) (env : N) (rs : list (option data)) (k : key) (d : data) : Prop :=
-    exists cfg k0 orefs,
+    exists cfg k0 body orefs,
       length rs = length (t_sources t) /\ cfg_of_reads (t_sources t) rs [] = Some cfg /\
-      render (t_code t) cfg env = RObj k0 d orefs /\ pf_violation (t_ns t) k0 orefs = false /\ k = eff_key (t_ns t) k0.
+      render (t_code t) cfg env = RObj k0 body orefs /\ follows d body = true /\
+      pf_violation (t_ns t) k0 orefs = false /\ k = eff_key (t_ns t) k0.
 
   Lemma reconcilex_facts a n w t w' evs t' rq err n' rs : reconcilex a n w t = (w', evs, t', rq, err, n', rs) ->
     w_sink w' = w_sink w /\ w_env w' = w_env w /\
@@ -1527,17 +1593,19 @@ Section Proofs.
     destruct (S5 cfg retry eq_refl) as [L C].
     destruct (template_object t cfg (w_env w1)) as [| | |k body] eqn:Eto; try (injection H as <- <- _ _ _ _ <-; auto; fail).
     rewrite S2 in Eto. destruct (tobj_inv _ _ _ _ _ Eto) as (k0 & orefs & Hr & Hpf & Hk).
-    assert (Hrr : rendered_reads t (w_env w) rs1 k body) by (exists cfg, k0, orefs; auto).
+    assert (Hrr : forall d, follows d body = true -> rendered_reads t (w_env w) rs1 k d) by (intros d Hf; exists cfg, k0, body, orefs; auto 10).
     cbn [w_store with_watch] in H. unfold req in H. cbn [w_store with_watch with_store] in H.
     destruct (cache_get (w_store w1) k) as [ex|].
     - destruct (copy_conds t ex).
       + destruct (adv_fault a n1); [|destruct (lookup (nkey k) _); [destruct (update_res k)|]];
           injection H as <- <- _ _ _ _ <-; (split; [assumption|split; [assumption|]]);
-          rewrite target_writes_app, S4; cbn; try (left; reflexivity); right; eauto.
+          rewrite target_writes_app, S4; cbn; try (left; reflexivity); right;
+          eexists _, _; (split; [reflexivity|apply Hrr; (apply follows_refl || apply follows_merge)]).
       + injection H as <- <- _ _ _ _ <-. split; [assumption|split; [assumption|]]. left. now rewrite target_writes_app, S4.
     - destruct (adv_fault a n1); [|destruct (create_res _ k)];
         injection H as <- <- _ _ _ _ <-; (split; [assumption|split; [assumption|]]);
-        rewrite target_writes_app, S4; cbn; try (left; reflexivity); right; eauto.
+        rewrite target_writes_app, S4; cbn; try (left; reflexivity); right;
+        eexists _, _; (split; [reflexivity|apply Hrr; (apply follows_refl || apply follows_merge)]).
   Qed.
 
   Theorem passx_reads a w t w' r rs : w_tmpl w = Some t -> passx a w = (w', r, rs) ->
